@@ -173,6 +173,15 @@ def gen_cases(tier, seed):
         cases.append(dict(kind='neg', client=c, server=s,
                           chunk=rng.choice(['all', 'random']),
                           cseed=rng.randrange(1 << 30)))
+    # RSA key exchange: the transient key in another encoding
+    for kex in kexes:
+        if kex.startswith('rsa'):
+            for v in ('e_pad', 'n_pad', 'both_pad', 'trailing'):
+                for ch in ('all', 'record'):
+                    cases.append(dict(kind='edit', kex=kex,
+                                      edit=['kt_reencode', S2C, v],
+                                      chunk=ch, cseed=31))
+
     # an active impostor: a server holding another key (plain, or wrapped in
     # a host certificate by a CA nobody trusts) against every shape of client
     # trust data that does not cover it; plus controls that must complete
@@ -357,6 +366,9 @@ class HandshakeMITM:
             elif e[0] == 'hostkey_reencode' and is_kexmsg and d == S2C:
                 new = self._reencode_hostkey(payload, e[2])
                 self.covered = True
+            elif e[0] == 'kt_reencode' and is_kexmsg and d == S2C:
+                new = self._reencode_transient(payload, e[2])
+                self.covered = True
             elif e[0] == 'range' and is_kexmsg:
                 new = self._range(payload, d, e[2])
                 # e / f of the finite-field methods enter the hash as
@@ -435,6 +447,33 @@ class HandshakeMITM:
             new_ks += b'\x00\x00\x00\x00'
         self.detail = {'reencoded_hostkey': how}
         return payload[:1] + R.sstr(new_ks) + rest
+
+    def _reencode_transient(self, payload, how):
+        """RSA key exchange: the server's transient key K_T (second string
+           of KEXRSA_PUBKEY) as the same key in other bytes"""
+
+        if payload[0] != 30 or \
+                R.kex_family(self.case['kex'].encode()) != 'rsa':
+            return None
+        try:
+            r = R.Reader(payload, 1)
+            ks = r.str()
+            kt = r.str()
+            rest = r.rest()
+            k = R.Reader(kt)
+            name = k.str()
+            ebytes, nbytes = k.str(), k.str()
+        except R.RefError:
+            return None
+        if how in ('e_pad', 'both_pad'):
+            ebytes = b'\x00' + ebytes
+        if how in ('n_pad', 'both_pad'):
+            nbytes = b'\x00' + nbytes
+        new_kt = R.sstr(name) + R.sstr(ebytes) + R.sstr(nbytes)
+        if how == 'trailing':
+            new_kt += b'\x00\x00\x00\x00'
+        self.detail = {'reencoded_transient_key': how}
+        return payload[:1] + R.sstr(ks) + R.sstr(new_kt) + rest
 
     def _range(self, payload, d, which):
         """Replace the peer-chosen public value (e / f / Q_C / Q_S)"""
